@@ -470,7 +470,7 @@ class FeatureInterval(AbstractFeatureInterval):
             end,
             getattr(self, name, name),
             score,
-            self.strand,
+            self.strand if chromosome_relative_coordinates else self.chunk_relative_strand,
             0,  # thickStart always 0 for non-coding
             0,  # thickEnd always 0 for non-coding
             rgb,
